@@ -542,6 +542,15 @@ ENV_SMALL_MALLOC = {"ASAN_OPTIONS": ENV["ASAN_OPTIONS"].replace("max_allocation_
 FORMAT_OOM = ("oom_format", ["A new 1024 0", "S new 1", "S 1 append " + "41" * 200, "S 1 append_format_w 20000000 4242", "S 1 append 43"])
 
 
+def run_driver(lines, timeout=1800):
+    """the Lean driver under an address-space limit: a monitor/model bug must not be able to exhaust the machine"""
+    import shutil
+    cmd = [str(vlib.driver_path()), "C18"]
+    if shutil.which("prlimit"):
+        cmd = ["prlimit", "--as=%d" % (6 << 30)] + cmd
+    return vlib.run_lines(cmd, lines, timeout)
+
+
 def run_impl(h, ops):
     env = ENV_SMALL_MALLOC if any(" append_format_w " in o for o in ops) else ENV
     return vlib.run_lines([str(h)], ops, env=env, timeout=600)
@@ -559,7 +568,7 @@ def judge(h, ops):
                    idx=len(impl), stderr=err[-2500:])
         # still let the monitor judge what was answered before the abort
     n = min(len(impl), len(ops))
-    mon, rc2, err2 = vlib.run_model("C18", ["M %s | %s" % (o, a) for o, a in zip(ops[:n], impl[:n])])
+    mon, rc2, err2 = run_driver(["M %s | %s" % (o, a) for o, a in zip(ops[:n], impl[:n])])
     res["mon"] = mon
     if rc2 != 0 or len(mon) != n:
         res.update(kind="protocol", key="protocol", what="monitor protocol failure: " + err2[-300:], idx=0)
@@ -636,7 +645,7 @@ def run(res):
     # -- L2b correspondence + L3 monitor ------------------------------------------------------------
     h = vlib.build_harness("c18", extra_flags=flags)
     pi, _, _ = run_impl(h, ["H primes"])
-    pm, _, _ = vlib.run_model("C18", ["H primes"])
+    pm, _, _ = run_driver(["H primes"])
     if pi != pm:
         broken.append("prime table seen by the compiler (%s) differs from the table the translator generated (%s)" % (pi, pm))
 
@@ -647,7 +656,7 @@ def run(res):
     def one(sc):
         name, ops = sc
         j = judge(h, ops)
-        model, rc, err = vlib.run_model("C18", ops)
+        model, rc, err = run_driver(ops)
         j["name"], j["ops"], j["model"], j["model_rc"] = name, ops, model, rc
         return j
 
